@@ -80,6 +80,19 @@ def stepLine (line : String) : String :=
   match toks with
   | ["case", n] => s!"case {n}"
   | ["end"] => "end"
+  | "obj" :: f =>
+    -- ValidateWithName on an in-memory record made by NewRecord (well-formed in every respect): only
+    -- the size of the protobuf message varies
+    let g := kv f
+    match (g "size").toNat?, (g "eol").toInt?, (g "now").toInt? with
+    | some size, some eol, some now =>
+      let nd : Node := [("TTL", .int 60000000000), ("Value", .bytes [47]), ("Sequence", .int 0),
+        ("Validity", .bytes [50]), ("ValidityType", .int 0)]
+      let pb : Pb := { sigV2 := [1], data := [1], size := size }
+      let C : Crypto := { verify := fun _ _ _ => true, parseKey := fun _ => none, nameOf := fun _ => 1,
+                          inlineKey := fun _ => some 1 }
+      s!"size={size} vwn={showU (validateWithName C (fun _ => some nd) (fun _ => some eol) now ⟨pb, nd⟩ 1)}"
+    | _, _, _ => "bad-op"
   | "val" :: f =>
     let g := kv f
     let r : Option String := do
